@@ -1085,6 +1085,11 @@ where
                 (coordinates.0, coordinates.1, false)
             }
         });
+        #[cfg(feature = "verif-hooks")]
+        let values = values.map(|v| match verif_hooks::next_point_override() {
+            None => v,
+            Some((x, y, is_id)) => (big_to_fe::<C::Base>(x), big_to_fe::<C::Base>(y), is_id),
+        });
         let x = self.base_field_chip().assign(layouter, values.map(|v| v.0))?;
         let y = self.base_field_chip().assign(layouter, values.map(|v| v.1))?;
         let is_id = self.native_gadget.assign(layouter, values.map(|v| v.2))?;
@@ -2003,6 +2008,48 @@ where
         let p2 = self.select(layouter, &s2, &zeta_p, &neg_zeta_p)?;
 
         Ok(((x1, x2), (p1, p2)))
+    }
+}
+
+/// Verification hook (feature `verif-hooks`, default off, add-only): a thread-local plan that
+/// replaces the values witnessed by chosen calls of `assign_point_unchecked` on this thread,
+/// i.e. a prover that chooses the coordinates / identity flag of a freshly witnessed point
+/// (the result of `add`, `double`, `incomplete_add`, the point of `assign`). Every value the
+/// chip derives from the assigned cells afterwards is computed from the replaced values.
+/// Without an installed plan nothing changes.
+#[cfg(feature = "verif-hooks")]
+pub mod verif_hooks {
+    use std::cell::RefCell;
+
+    use num_bigint::BigUint;
+
+    /// `(index, x, y, is_id)`: values for the `index`-th call (counted from the installation).
+    pub type PointTarget = (usize, BigUint, BigUint, bool);
+
+    thread_local! {
+        static PLAN: RefCell<Option<(usize, Vec<PointTarget>)>> = const { RefCell::new(None) };
+    }
+
+    /// Installs a plan on this thread (replacing any previous one) and resets the call counter.
+    pub fn set_point_plan(targets: Vec<PointTarget>) {
+        PLAN.with(|p| *p.borrow_mut() = Some((0, targets)));
+    }
+
+    /// Removes the plan of this thread; returns the number of calls counted while it was
+    /// installed (calls with a known value only).
+    pub fn take_point_plan() -> usize {
+        PLAN.with(|p| p.borrow_mut().take().map(|x| x.0).unwrap_or(0))
+    }
+
+    /// Called by `assign_point_unchecked` for every known value.
+    pub(super) fn next_point_override() -> Option<(BigUint, BigUint, bool)> {
+        PLAN.with(|p| {
+            let mut guard = p.borrow_mut();
+            let plan = guard.as_mut()?;
+            let idx = plan.0;
+            plan.0 += 1;
+            plan.1.iter().find(|t| t.0 == idx).map(|t| (t.1.clone(), t.2.clone(), t.3))
+        })
     }
 }
 
